@@ -24,11 +24,11 @@ RULE = ("Hypothesis-generated command histories over one project (experiments wi
         "step and carries that invocation's HEAD hash and dirty flag; restored rows equal what was archived. "
         "Non-trivial = a killed step whose kill point lies after the first spawn/copy and before the command's end, or a run in "
         "which one experiment fails while another is recorded. Distinct = SHA-1 of case JSON."
-        " Also generated: `clean -f` as a killable step and kill points inside shutil (rmtree/copytree) under a generated directory-listing order; git steps touch (same content, new mtime: not a change) and dirty_staged (a change that is completely staged: a change).")
+        " Also generated: `clean -f` as a killable step and kill points inside shutil (rmtree/copytree) under a generated directory-listing order; git steps touch (same content, new mtime: not a change) and dirty_staged (a change that is completely staged: a change); a killed restore followed by the same restore again (generated, and as a sixth sweep scenario).")
 ASSUMPTIONS = ["process-kill semantics at Python-line granularity; power loss is out of scope",
                "the order in which a directory's entries are listed is chosen by the case (fs order, sorted, reversed, seeded permutations)"]
 ESSENTIAL = ["touched_but_unchanged", "dirty_only_in_index", "kill_during_run_after_spawn", "kill_during_restore_after_copy", "kill_during_gc", "kill_during_clean_partway", "kill_inside_shutil", "nonzero_exit_not_recorded",
-             "dirty_flag_true", "head_moved", "restore_after_wipe", "args_and_options_recorded", "kill_between_exit_and_record"]
+             "dirty_flag_true", "head_moved", "restore_after_wipe", "args_and_options_recorded", "kill_between_exit_and_record", "restore_repeated_after_a_killed_restore"]
 TECHNIQUE = "stateful property testing (Hypothesis-generated command histories) with kill-point fault injection (sys.settrace + os._exit) and an on-disk invariant"
 LEVEL_TEXT = ("Histories are generated; kill points are drawn per command and enumerated for fixed scenarios. The invariant is evaluated on "
               "the disk state a user's next command would see.")
@@ -82,6 +82,10 @@ def _case(draw, tier):
         elif op == "archive":
             s["latest"] = draw(st.booleans())
         steps.append(s)
+        if op in ("restore", "wipe_restore") and s["kill"] is not None and draw(st.booleans()):
+            # what a user does after an interrupted restore: the same command again (on whatever the first attempt left)
+            steps.append({"op": "restore", "kill": draw(st.sampled_from([None, None, None] + list(range(0, 1000, 111)))),
+                          "deep": True, "order": s["order"], "retry": True})
     runs = [j for j, s in enumerate(steps) if s["op"] == "run"]
     if g["git"] == "git" and runs and draw(st.sampled_from(range(4))) == 0:
         # a touched-but-unchanged tracked file right before a run
@@ -137,6 +141,10 @@ FIXED = [
      "steps": [{"op": "run", "target": 0, "flags": [], "outcomes": {}, "tape": [], "kill": None},
                {"op": "clean", "deep": True, "order": "reversed", "kill": "sweep"}]},
 ]
+# 5: a restore killed at every line (also inside shutil.copytree), followed by the same restore again
+FIXED.append(dict(FIXED[2], steps=[FIXED[2]["steps"][0], FIXED[2]["steps"][1],
+                                   {"op": "wipe_restore", "kill": "sweep", "deep": True, "order": "sorted"},
+                                   {"op": "restore", "kill": None, "retry": True}]))
 _N = {}
 
 
@@ -348,6 +356,8 @@ def _run(case, work):
                 shutil.rmtree(os.path.join(w.root, "cond-out"), ignore_errors=True)
                 w.labels.add("restore_after_wipe")
             argv = ["restore", path]
+            if step.get("retry"):
+                w.labels.add("restore_repeated_after_a_killed_restore")
         elif op == "gc":
             argv = ["gc"]
         elif op == "clean":
